@@ -68,6 +68,14 @@ INJ = {
     "conv": ("rawerr", "int('x')"),
     # a module whose top-level code raises a user value while it is loaded
     "req_err": ("rawerrv", "(do require C05ErrA; 0 end)", "a"),
+    # a filter that is not a boolean, in every comprehension form
+    "comp_l": ("rawerr", "[x for x in [1, 2] if x]"),
+    "comp_s": ("rawerr", "<<x for x in [1, 2] if x>>"),
+    "comp_m": ("rawerr", "<<<x => x for x in [1, 2] if x>>>"),
+    "comp_lp": ("rawerr", "[x for x in [1] for y in [2] if x]"),
+    "comp_la": ("rawerr", "[x for x in [1] also for y in [2] if x]"),
+    "comp_sp": ("rawerr", "<<x for x in [1] for y in [2] if x>>"),
+    "comp_sa": ("rawerr", "<<x for x in [1] also for y in [2] if x>>"),
     # a failure that starts as a host exception inside a built-in
     "hostfail": ("rawerr", "('ab' * 1000000000000000000000)"),
     "return": ("return", L("R")),
@@ -83,7 +91,8 @@ INJ1Q = ["err_a", "err_1f", "err_null", "err_obj", "undef", "callraise",
 # depth-2 chains take every injection kind except the extra spellings of a
 # runtime error (those run on every depth-1 chain)
 INJ_CORE = [k for k in INJ if k not in ("div0ff", "mod0", "idx", "conv",
-                                        "req_err")]
+                                        "req_err") and
+            not k.startswith("comp_")]
 
 CONTROL = ("return", "break", "continue")
 
@@ -123,13 +132,13 @@ class Builder:
         if f == "funcargs":
             # errors unwind through a call that has arguments of every
             # kind (the call site renders them for the stack trace)
-            ps = [("p%d" % k, None, False) for k in range(7)]
+            ps = [("p%d" % k, None, False) for k in range(8)]
             args = [("pos", V("stdout")), ("pos", L(None)),
                     ("pos", ("list", [L(1), L("a")])),
                     ("pos", ("map", [(L(1), L(2))])),
                     ("pos", ("set", [L("s")])),
                     ("pos", ("obj", [("m", L(1))])),
-                    ("pos", V("boom"))]
+                    ("pos", V("boom")), ("pos", V("cyc"))]
             return [("def", "fn%d" % i, ("fn", ps, ("seq", body +
                                                    [L("ret%d" % i)])),
                      True),
@@ -194,6 +203,9 @@ class Builder:
     def program(self):
         stmts = [("raw", "require IO import [process_lines, str_input]",
                   None), ("def", "cv", L("a")),
+                 # a list that contains itself (only ever passed along)
+                 ("def", "cyc", ("list", [L(1)])),
+                 ("raw", "append(cyc, cyc)", None),
                  ("def", "eo", ("obj", [
                      ("tag", L(1)),
                      ("_str_", ("fn", [("self", None, False)],
